@@ -386,6 +386,10 @@ PROPS["C05"] = dict(
         H("c05::c05_n2_norecord", "shell", desc="no valid record: empty / collision / expired", timeout=1500),
         H("c05::c05_fallback_two_holders", "shell", desc="minimal fallback instance: two holders, no record -> only the first is charged"),
         H("c19::c19_tracker_purge", "shell", desc="remove_connection purges exactly the removed link's records"),
+        # what the tracker is told when a datagram is routed (C05's premise), on the real shell function (DESIGN.md 2.5)
+        H("c04p::c04_forward_unique_copy_sel0", "shell", desc="real forward_via_connection: after routing a data packet the tracker names the NEW carrier, whatever the slot held before "
+          "(the same number carried by another uplink = re-routed retransmission, a colliding older number, nothing)", bounds="2 links, datagram 1..12 B", timeout=1200),
+        H("c04p::c04_forward_unique_copy_sel1", "shell", desc="same, chosen uplink 1", bounds="2 links, datagram 1..12 B", timeout=1200),
     ],
 )
 
